@@ -52,6 +52,7 @@ StructDef      == St("structdef", "", "", 0, "") \* struct Sa { f: ZL }
 PrintS(a)      == St("print", a, "", 0, "")      \* print(a + 0)
 AssertEq(a, k) == St("asserteq", a, "", k, "")   \* assert_eq(a + 0, k)
 Use(m)         == St("use", "", "", 0, m)        \* use m
+ExprDiv0       == St("exprdiv0", "", "", 0, "")  \* 1 / 0                  (an EXPRESSION statement that fails at run time)
 ParseErr       == St("parseerr", "", "", 0, "")  \* let = 1
 
 Text(s) ==
@@ -76,6 +77,7 @@ Text(s) ==
     [] s.t = "print"     -> "print(" \o s.a \o " + 1 - 1)"
     [] s.t = "asserteq"  -> "assert_eq(" \o s.a \o " + 1 - 1, " \o ToString(s.k) \o ")"
     [] s.t = "use"       -> "use " \o s.m
+    [] s.t = "exprdiv0"  -> "1 / 0"
     [] s.t = "parseerr"  -> "let = 1"
 
 RECURSIVE InputText(_)
@@ -167,7 +169,7 @@ Stage2(w, s) ==
          ELSE IF s.t = "expr" THEN Ok([w EXCEPT !.hasans = TRUE]) ELSE Ok(w)
     [] s.t = "call" -> IF ~IsFn(w, s.a) THEN Bad(w, "expr") ELSE Ok([w EXCEPT !.hasans = TRUE])
     [] s.t \in {"anse", "ansval"} -> IF ~w.hasans THEN Bad(w, "expr") ELSE Ok(w)
-    [] s.t = "qexpr" -> Ok([w EXCEPT !.hasans = TRUE])
+    [] s.t \in {"qexpr", "exprdiv0"} -> Ok([w EXCEPT !.hasans = TRUE])
     [] s.t = "unitdef" ->
          IF Cap(s.a) \in w.dims THEN Bad(w, "registry") ELSE Ok([w EXCEPT !.dims = @ \cup {Cap(s.a)}])
     [] s.t = "unitder" -> Ok([w EXCEPT !.uder = @ \cup {s.a}])
@@ -184,7 +186,7 @@ Stage2(w, s) ==
 Stage3(w, s) ==
   CASE s.t = "let"      -> Ok([w EXCEPT !.val[s.a] = s.k])
     [] s.t = "letref"   -> Ok([w EXCEPT !.val[s.a] = w.val[s.b] + 1])
-    [] s.t = "letdiv0"  -> Bad(w, "division_by_zero")
+    [] s.t \in {"letdiv0", "exprdiv0"} -> Bad(w, "division_by_zero")
     [] s.t = "fn"       -> Ok([w EXCEPT !.fnv[s.a] = s.k])
     [] s.t = "fnref"    -> Ok([w EXCEPT !.fnv[s.a] = w.val[s.b]])
     [] s.t = "fncall"   -> Ok([w EXCEPT !.fnv[s.a] = w.fnv[s.b]])
